@@ -116,6 +116,7 @@ class KDMixWrapper(KDWrapper):
             # mixup
             x_lamb = lamb.view(*[1] * x.ndim)
             x.mul_(x_lamb).add_(x2.mul_(1. - x_lamb))
-            cls.mul_(lamb).add_(cls2.mul_(1. - lamb))
+            # not in-place: to_one_hot_vector returns a float label vector as is (an alias of the dataset's label)
+            cls = cls * lamb + cls2 * (1. - lamb)
 
         return x, cls
